@@ -32,11 +32,9 @@ func vEndOK(buf []byte, cursor int64) bool {
 // c05Verdicts asserts the acceptance sandwich RFC ⊆ accepted ⊆ RFC+listed relaxations.
 func c05Verdicts(t *verifrt.T, doc []byte, accepted bool) {
 	strict := verifref.ValidJSON(doc, verifref.Relax{})
-	num := verifref.ValidJSON(doc, verifref.Relax{NumberGo: true})
 	ctrl := verifref.ValidJSON(doc, verifref.Relax{CtrlInString: true})
-	lax := verifref.ValidJSON(doc, verifref.Relax{NumberGo: true, CtrlInString: true})
+	lax := verifref.ValidJSON(doc, verifref.Relax{CtrlInString: true})
 	and, implies := verifrt.And, verifrt.Implies
-	t.Known("D3-number-forms-outside-RFC-accepted", and(accepted, !strict, num))
 	t.Known("D4-raw-control-character-in-string-accepted", and(accepted, !strict, ctrl))
 	t.Assert("accept-only-listed-language", implies(accepted, lax))
 	// a number outside the float64 range is an error for this destination in encoding/json too
